@@ -384,6 +384,13 @@ def verify_function(world, contract, report=None, only_cfg=None, scope=None):
             except RecursionError as e:
                 rep.unsupported.append((cname, 'recursion limit'))
                 continue
+            except Exception as e:
+                # a contract / invariant written against names or shapes the code no longer has (e.g. after a
+                # harmless refactoring), or an engine limitation: this path is undecided, never a verdict
+                rep.unsupported.append((cname, 'contract not applicable to the current code (%s: %s)' % (type(e).__name__, str(e)[:160])))
+                work.extend(ctx.pending)
+                rep.obligations.extend(ctx.obls)
+                continue
             work.extend(ctx.pending)
             rep.trusted |= ctx.trusted
             rep.notes.extend(ctx.notes)
@@ -421,6 +428,8 @@ def verify_function(world, contract, report=None, only_cfg=None, scope=None):
                             ctx.oblige('p%s/signals:%s' % (pid, label), f, 'exc-post')
                 except Unsupported as e:
                     rep.unsupported.append((cname, 'contract evaluation: ' + str(e)))
+                except Exception as e:
+                    rep.unsupported.append((cname, 'contract evaluation not applicable (%s: %s)' % (type(e).__name__, str(e)[:160])))
                 rep.events.append((cname, pid, outcome[0], list(ctx.events)))
             rep.obligations.extend(ctx.obls)
     rep.seconds = time.time() - t0
@@ -531,6 +540,11 @@ def verify_fragment(world, contract, report=None, only_cfg=None, scope=None):
                 work.extend(ctx.pending)
                 rep.obligations.extend(ctx.obls)
                 continue
+            except Exception as e:
+                rep.unsupported.append((cname, 'contract not applicable to the current code (%s: %s)' % (type(e).__name__, str(e)[:160])))
+                work.extend(ctx.pending)
+                rep.obligations.extend(ctx.obls)
+                continue
             work.extend(ctx.pending)
             rep.trusted |= ctx.trusted
             if outcome is not None:
@@ -546,6 +560,8 @@ def verify_fragment(world, contract, report=None, only_cfg=None, scope=None):
                         ctx.oblige('p%s/ensures:%s' % (pid, label), f, 'ensures')
                 except Unsupported as e:
                     rep.unsupported.append((cname, 'contract evaluation: ' + str(e)))
+                except Exception as e:
+                    rep.unsupported.append((cname, 'contract evaluation not applicable (%s: %s)' % (type(e).__name__, str(e)[:160])))
             rep.obligations.extend(ctx.obls)
     rep.seconds = time.time() - t0
     return rep
